@@ -373,7 +373,9 @@ func mutate(r *core.Rand, rule RuleSpec, m c16Method) RuleSpec {
 		rule.Template += "/{no.such}"
 		rule.Invalid = "unknown-field"
 	case 6:
-		rule.Verb, rule.Body = "post", "no_such_body_field"
+		// (under any verb: a body selector that names nothing is unresolvable
+		// whether or not the verb usually carries a body - round 14)
+		rule.Verb, rule.Body = r.PickS("post", "put", "patch", "get", "delete"), "no_such_body_field"
 		rule.Invalid = "unknown-body-selector"
 	case 7:
 		rule.RespBody = "no_such_response_field"
